@@ -11,7 +11,7 @@ LEVEL_NOTE = 'Trusted: as C03; clauses are deliberately weaker than a full timin
 TECHNIQUE = 'deterministic simulation: virtual-time event loop, arrival-grid exploration, debounce history invariants'
 CHUNK = 200
 DESIGN_REF = '3.8'
-PROFILES = [('c08-nofail', 8000), ('c08', 16000)]
+PROFILES = [('c08-nofail', 8000), ('c08', 12000), ('c08-flush', 8000)]
 
 
 def batches(tier):
